@@ -22,7 +22,7 @@ PROPS['C04'] = {
         '(*tree.Edge).HashEquals', '(*tree.Edge).SameBipartition', '(*tree.Edge).FindEdge',
         '(*tree.Tree).clearBitSetsRecur', '(*tree.Tree).ClearBitSets',
         '(*hashmap.HashMap).Value', '(*hashmap.HashMap).PutValue', '(*hashmap.HashMap).rehash', 'hashmap.NewHashMap',
-        'tree.NewEdgeIndex', '(*tree.EdgeIndex).AddEdgeCount',
+        'tree.NewEdgeIndex', '(*tree.EdgeIndex).AddEdgeCount', '(*tree.EdgeIndex).Value', '(*tree.EdgeIndex).PutEdgeValue',
         '(*tree.Tree).computeEdgeHashesRightRecur', '(*tree.Tree).computeEdgeHashesLeftRecur',
         ('(*tree.Tree).ReinitIndexes', {'match': [r'^callsite', r'^post']}), ('(*tree.Tree).ReinitInternalIndexes', {'match': [r'^callsite']}),
         ('(*tree.Tree).ComputeEdgeHashes', {'match': [r'^callsite']}),
@@ -94,7 +94,10 @@ PROPS['C08'] = {
     'functions': [('tree.Compare$1', {'match': [r'^send\.stats\.(identical|no_specific|counts|record)', r'^callsite', r'^inv\..*L2', r'^nil', r'^bounds', r'^pre', r'^typeassert']}),
                   ('tree.CompareWeighted$1', {'match': [r'^send\.stats\.(identical|record)', r'^callsite', r'^inv\..*L[234]', r'^nil', r'^bounds', r'^pre', r'^typeassert']}),
                   '(*tree.Tree).CompareTipIndexes', 'tree.CommonEdges', '(*tree.Tree).CommonEdges', '(*tree.Edge).FindEdge',
-                  ('cmd.compareTreesCmd.RunE', {'match': [r'^callsite\.fmt', r'^step', r'^return']}), '(*tree.Edge).HashCode'],
+                  ('cmd.compareTreesCmd.RunE', {'match': [r'^callsite\.fmt', r'^step', r'^return']}), '(*tree.Edge).HashCode',
+                  '(*tree.EdgeIndex).Value', '(*tree.EdgeIndex).PutEdgeValue',
+                  ('tree.Compare', {'match': [r'^callsite', r'^post', r'^step', r'^inv', r'^nil', r'^bounds']}),
+                  ('tree.CompareWeighted', {'match': [r'^callsite', r'^post', r'^step', r'^inv', r'^nil', r'^bounds']})],
     'trusted_base': TB_COMMON,
     'assumptions': A_COMMON,
     'not_decided': ['Common == |S1 n S2| as a set identity (needs the split-class abstraction of the index: C04 stretch)', 'symmetry under swapping the trees and independence of rooting (corollaries of the set formulation)', 'the final square root of KF and the %E formatting (fmt)'],
@@ -109,6 +112,8 @@ PROPS['C11'] = {
                   ('tree.Compare$2', {}),
                   ('tree.CompareWeighted$1', {'match': [r'^ownership', r'^post\.done', r'^nilchan', r'^sendclosed', r'^send\.stats\.(error|the_lists)', r'^inv\..*(L1|lists_built)', r'^callsite\..*(PutEdgeValue|Value@L)']}),
                   ('tree.CompareWeighted$2', {}),
+                  ('tree.Compare', {'match': [r'^callsite\.\(\*sync', r'^post\.one_worker', r'^inv\..*L2']}),
+                  ('tree.CompareWeighted', {'match': [r'^callsite\.\(\*sync', r'^post\.one_worker', r'^inv\..*L2']}),
                   ('support.FBP$1', {'match': [r'^ownership', r'^post\.done', r'^nilchan', r'^sendclosed', r'^return', r'^inv\..*L1', r'^callsite\..*@L1']}),
                   ('support.FBP$2', {}),
                   ('support.TBE$1', {}), ('support.TBE', {'match': [r'^callsite\.\(\*sync', r'^inv\..*L5']}),
@@ -235,7 +240,7 @@ PROPS['C13'] = {
     'packages': ALLPK,
     'functions': ['io/utils.ReadMultiTrees$1', 'io/utils.ReadMultiTrees$1$1', 'io/utils.ReadMultiTrees$1$2', 'io/utils.ReadTreeReader',
                   '(*io/phyloxml.PhyloXML).FirstTree', '(*io/phyloxml.PhyloXML).IterateTrees',
-                  '(*io/nexus.Nexus).FirstTree', '(*io/nexus.Nexus).AddTree', 'io/fileutils.ReadUntilSemiColon', ('io/nexus.WriteNexus', {'match': [r'^callsite', r'^step', r'^nilchan']}), 'io/phyloxml.cladeToTree', 'io/phyloxml.writeClade'],
+                  '(*io/nexus.Nexus).FirstTree', '(*io/nexus.Nexus).AddTree', 'io/fileutils.ReadUntilSemiColon', ('io/nexus.WriteNexus', {'match': [r'^callsite', r'^step', r'^nilchan']}), 'io/phyloxml.cladeToTree', 'io/phyloxml.writeClade', ('io/phyloxml.phylogenyToTree', {'match': [r'^callsite']})],
     'trusted_base': TB_COMMON,
     'assumptions': A_COMMON,
     'explanation': 'Relational / agreement contracts on the entry points, proved deductively; format conversion round trips are compositions outside the reach of per-function contracts and are not claimed.',
@@ -281,7 +286,8 @@ PROPS['C16'] = {
                   ('tree.AllTopologies', {'match': [r'^post', r'^callsite']}),
                   ('tree.RandomCaterpillarBinaryTree', {'match': [r'^post', r'^callsite', r'^step', r'^inv']}),
                   ('tree.randomBalancedBinaryTreeRecur', {'match': [r'^post', r'^callsite']}),
-                  ('tree.RandomBalancedBinaryTree', {'match': [r'^post', r'^callsite']})],
+                  ('tree.RandomBalancedBinaryTree', {'match': [r'^post', r'^callsite']}),
+                  ('tree.StarTree', {'match': [r'^post', r'^callsite', r'^step', r'^inv']})],
     'trusted_base': TB_COMMON,
     'assumptions': A_COMMON,
     'not_decided': ['each of the (2n-5)!! / (2n-3)!! topologies exactly once (combinatorial bijection)', 'uniqueness of generated tip names (strconv.Itoa injective: trusted)'],
@@ -331,7 +337,8 @@ PROPS['C05'] = {
                   ('(*tree.Tree).LeastCommonAncestorRecur', {'match': [r'^step', r'^return', r'^post', r'^inv']}),
                   ('(*tree.Tree).RerootOutGroup', {'match': [r'^callsite']}),
                   ('(*tree.Tree).RerootMidPoint', {'match': [r'^callsite', r'^inv', r'^step', r'^bounds\[(0|1|2|3|4|6|7|8|9|10|11)\]'] }),
-                  'tree.MaxLengthPath', ('(*tree.Tree).LeastCommonAncestorUnrooted', {'match': [r'^callsite', r'^inv']})],
+                  'tree.MaxLengthPath', ('(*tree.Tree).LeastCommonAncestorUnrooted', {'match': [r'^callsite', r'^inv']}),
+                  '(*tree.Tree).sortNeighbors', '(*tree.Tree).SortNeighborsByTips'],
     'trusted_base': TB_COMMON,
     'assumptions': A_COMMON,
     'not_decided': ['tip set / split set / path lengths invariance as whole-tree consequences (L7, L2, L3: A-GRAPH)', 'outgroup is exactly one root clade (needs the LCA monophyly stretch contract)', 'root halfway along a longest path (needs MaxLengthPath maximality)'],
@@ -344,7 +351,7 @@ PROPS['C09'] = {
     'packages': ['./tree', './hashmap'],
     'functions': [('tree.Consensus', {'match': [r'^callsite', r'^post', r'^inv']}), '(*tree.EdgeIndex).AddEdgeCount',
                   ('(*tree.Tree).AddBipartition', {'match': [r'^callsite', r'^step', r'^post', r'^inv']}),
-                  ('tree.StarTreeFromTree', {'match': [r'^callsite']}),
+                  ('tree.StarTreeFromTree', {'match': [r'^callsite']}), ('tree.StarTree', {'match': [r'^post', r'^callsite', r'^step', r'^inv']}),
                   ('(*tree.EdgeIndex).Edges', {'match': [r'^post', r'^inv', r'^typeassert', r'^nil', r'^bounds', r'^pre']}),
                   '(*tree.Edge).HashCode'],
     'lemma_files': ['tree'],
